@@ -744,7 +744,9 @@ double Circuit::expandCellsByFactor(const std::vector<float> &expansionFactor,
   for (int i = 0; i < nbCells(); ++i) {
     if (!cellIsFixed_[i]) {
       cellArea += area(i);
-      expandedArea += expansionFactor[i] * area(i);
+      // Accumulate in double: float arithmetic loses cell areas once the total
+      // exceeds 2^24
+      expandedArea += static_cast<double>(expansionFactor[i]) * area(i);
     }
   }
 
@@ -776,7 +778,10 @@ double Circuit::expandCellsByFactor(const std::vector<float> &expansionFactor,
     if (!cellIsFixed_[i]) {
       // Just round down here, as we don't want to redistribute expansion
       // between the cells
-      cellWidth_[i] *= expansion[i];
+      // The product is exact in double; a float product would make cells wider
+      // than 2^24 narrower even for a factor of 1
+      cellWidth_[i] = static_cast<int>(cellWidth_[i] *
+                                       static_cast<double>(expansion[i]));
     }
   }
 
